@@ -40,6 +40,11 @@ func (b Bool) Bool() bool {
 type Number float64
 
 func (n Number) String() string {
+	if n == 0 {
+		// positive and negative zero
+		return "0"
+	}
+
 	if math.IsInf(float64(n), 1) {
 		return "Infinity"
 	}
@@ -56,7 +61,7 @@ func (n Number) Number() float64 {
 }
 
 func (n Number) Bool() bool {
-	return n != 0
+	return n != 0 && !math.IsNaN(float64(n))
 }
 
 type String string
